@@ -152,13 +152,28 @@ def check(ctx, replay=None):
         fates = (["ok", "missing"] + ["fail_after_%d" % i for i in range(NCHUNKS + 1)] + ["kill_after_%d" % i for i in range(NCHUNKS + 1)]
                  + ["sig_after_%d" % i for i in range(NCHUNKS + 1)])
         reps = 8 if th else 1
-        plan = [(fate, rebuilt, "target") for fate in fates for rebuilt in (False, True)]
-        plan += [(fate, False, LONG) for fate in ["ok", "missing", "fail_after_1"] + ["kill_after_%d" % i for i in range(NCHUNKS + 1)]]
-        for fate, rebuilt, base in plan:
+        plan = [(fate, rebuilt, "target", False) for fate in fates for rebuilt in (False, True)]
+        plan += [(fate, False, LONG, False) for fate in ["ok", "missing", "fail_after_1"] + ["kill_after_%d" % i for i in range(NCHUNKS + 1)]]
+        # ProfCache!Init: the cache may hold the complete listing of an OLDER version of the binary (an undisturbed earlier run; the older
+        # version makes fewer syscalls) before the binary is rebuilt and the disturbed run happens
+        plan += [(fate, False, "target", True) for fate in fates]
+        nprior = 0
+        for fate, rebuilt, base, prior in plan:
             if True:
                 for rep in range(reps):
-                    tag = "%s_%d_%d_%d" % (fate, rebuilt, rep, len(base))
+                    tag = "%s_%d_%d_%d%s" % (fate, rebuilt, rep, len(base), "_prior" if prior else "")
                     b = fresh_binary(tag, base)
+                    if prior:
+                        cur = open(b, "rb").read()
+                        with open(b, "ab") as f:
+                            f.write(b"OLDVERSION")          # (the fake disassembler serves the first chunk only for such a binary)
+                        cmdfam.set_mode(fakedir, "ok")
+                        zeroth = run_profiler(d, fakedir, b)
+                        if zeroth is None or zeroth["rc"] != 0 or zeroth["names"] != [CHUNK_SYSCALLS[0][0]]:
+                            raise vlib.Machinery("the run on the older version does not give the older profile: %s" % (zeroth,))
+                        with open(b, "wb") as f:
+                            f.write(cur)                     # rebuilt: the current version
+                        nprior += 1
                     cmdfam.set_mode(fakedir, fate if fate != "missing" else "ok")
                     first = run_profiler(d, fakedir, b, with_go=(fate != "missing"))
                     if first is None:
@@ -188,11 +203,12 @@ def check(ctx, replay=None):
                             ctx.note("the disassembler failed (%s) but the profiler exited with status 0 and a profile of %s" % (fate, first["names"]))
                     if second["rc"] == 0 and sorted(second["names"]) != sorted(want):
                         ctx.violation("after a first run with fate '%s'%s%s the next run printed the profile %s; a cold-cache run gives %s"
-                                      % (fate, " and a rebuilt binary" if rebuilt else "", " (binary name of %d characters)" % len(base) if base != "target" else "", second["names"], want),
-                                      {"fate": fate, "rebuilt": rebuilt, "binary_name_length": len(base), "first_run": first, "cache_after_first_run": disk, "second_run": second, "cold_profile": want,
+                                      % (fate, (" on a binary whose older version had been cached completely" if prior else "") + (" and a rebuilt binary" if rebuilt else ""), " (binary name of %d characters)" % len(base) if base != "target" else "", second["names"], want),
+                                      {"fate": fate, "rebuilt": rebuilt, "older_version_cached_before": prior, "binary_name_length": len(base), "first_run": first, "cache_after_first_run": disk, "second_run": second, "cold_profile": want,
                                        "admissible": "the cold-cache profile, or an error", "how": "./check C17 quick"})
                     if len(ctx.cov["samples"]) < 3 and fate.startswith("kill"):
                         ctx.sample({"fate": fate, "rebuilt": rebuilt, "first_rc": first["rc"], "cache_after_first_run": disk, "second_used_cache": second["cached"], "second_profile": second["names"]})
+        ctx.cov["scenarios_with_an_older_version_cached_before"] = nprior
         # overlapping runs on one binary (ProfCache2.tla): run A has written `a` chunks when run B starts; B writes `b` chunks; A finishes
         # and renames; then B's disassembler fails. The next normal run must give the cold-cache profile or fail.
         import glob
